@@ -20,6 +20,10 @@ def cells(tier: str) -> dict:
 
     for kind in ("dres", "wres", "dgroup", "dtask", "dparent"):
         add(f"S6[{kind}]", lambda kind=kind: S6(kind, limit="2h" if kind[0] == "d" else "5h"), H, 6 * H)
+    # narrow variants around the limit boundary (each task needs between one and two periods): small path trees
+    for kind in ("dres", "dgroup", "dtask", "dparent"):
+        add(f"S6[{kind},narrow]", lambda kind=kind: S6(kind, limit="2h"), H + 1800, 2 * H + 1800)
+    add("S6[wres,narrow]", lambda: S6("wres", limit="5h"), 4 * H, 6 * H)
     # limits that are not a whole number of slots (3.5 h with 1 h slots, 0.75 h with 30 min slots, 10.6 h per week on a group)
     add("S6[dres,3.5h]", lambda: S6("dres", limit="3.5h"), 4 * H, 9 * H)
     add("S6[wgroup,10.6h]", lambda: S6("wgroup", limit="10.6h"), 8 * H, 14 * H)
